@@ -445,7 +445,8 @@ def point_distance_forms(ctx):
     it = SymInterp(repo)
     a, b = sym_point(it, "a"), sym_point(it, "b")
     env = {pd.params[0]: a, pd.params[1]: b}
-    f1 = it.ev(rets[0].value.args[0], env, pd)
+    from .astutil import expand_locals
+    f1 = it.ev(expand_locals(pd.node, rets[0].value.args[0], pd.params), env, pd)
     # distance(Point, Point): Vector(a, b).length() == (v*v) ** 0.5
     it2 = SymInterp(repo)
     a2, b2 = sym_point(it2, "a"), sym_point(it2, "b")
@@ -455,7 +456,7 @@ def point_distance_forms(ctx):
     if len(lr) != 1 or not (isinstance(lr[0].value, ast.BinOp) and isinstance(lr[0].value.op, ast.Pow)
                             and txt(lr[0].value.right) == "0.5"):
         raise AnalysisError("Vector.length is not `(<expression>) ** 0.5`")
-    f2 = it2.ev(lr[0].value.left, {ln.params[0]: v}, ln)
+    f2 = it2.ev(expand_locals(ln.node, lr[0].value.left, ln.params), {ln.params[0]: v}, ln)
     return pshow(f1), pshow(f2), f1 == f2
 
 
